@@ -525,6 +525,13 @@ Proof.
       try congruence; repeat split; auto; try lia; try (intuition congruence).
 Qed.
 
+Lemma sink_sync_invP c x s k t l : InvP s -> InvP (fst (sink_sync c x s k t l)).
+Proof.
+  intros H. unfold sink_sync. destruct (live s x k) eqn:El; [|exact H]. apply live_alive in El. destruct El as [Ea _].
+  destruct (len (e_sq (ec (gep s x))) <? c_s (ecf c x)); cbn [fst]; [|exact H].
+  openP H. unfold cn in *. brute.
+Qed.
+
 Lemma kill_invP s : InvP s -> InvP (kill s).
 Proof. intros H. openP H. unfold kill, cn in *. brute. Qed.
 
@@ -546,6 +553,7 @@ Proof.
     openP H. unfold set_hnd, cn in *. brute.
   - cbn [fst]. openP H. unfold slo, cn in *. brute.
   - destruct (per s =? 0); cbn [fst]; [exact H|apply kill_invP; exact H].
+  - pose proof (sink_sync_invP c x s k tag ln H). destruct (sink_sync c x s k tag ln). assumption.
 Qed.
 
 (* ================================================================== the FIFO invariant
@@ -1360,6 +1368,18 @@ Proof.
       destruct z, x; cbn; unfold dview, cn, hn, gl; cbn in *; rewrite ?Epe; reflexivity.
 Qed.
 
+Lemma sink_sync_invD c z s k t l : (forall x, InvD s x) -> forall x, InvD (fst (sink_sync c z s k t l)) x.
+Proof.
+  intros H x. unfold sink_sync. destruct (live s z k) eqn:El; [|apply H]. apply live_alive in El. destruct El as [Ea Ek].
+  unfold InvD. destruct (len (e_sq (ec (gep s z))) <? c_s (ecf c z)); cbn [fst]; [|apply H].
+  destruct (Bool.eqb x z) eqn:E.
+  - apply eqb_prop in E. subst x.
+    replace (dview _ z) with (vaccept (dview s z) (mkN z k true t l) (e_ws (hn s z))) by (destruct z; reflexivity).
+    apply vaccept_inv; [apply H|exact Ea|cbn; destruct z; exact Ek|exact (i_t1w _ (H z))].
+  - other x z E. replace (dview _ (negb z)) with (dview s (negb z)); [apply H|].
+    destruct z; cbn; unfold dview, cn, hn, gl; cbn in *; reflexivity.
+Qed.
+
 Lemma set_async_dview_y z aq ws acc ok err s :
   dview (set_async z aq ws acc ok err s) (negb z) = dview s (negb z).
 Proof. destruct z; reflexivity. Qed.
@@ -1488,6 +1508,7 @@ Proof.
     intros y. unfold InvD. replace (dview _ y) with (dview s y) by (destruct x, y; reflexivity). apply H.
   - cbn [fst]. intros y. unfold InvD. replace (dview _ y) with (dview s y) by (destruct x, y; reflexivity). apply H.
   - destruct (per s =? 0); cbn [fst]; [exact H|apply kill_invD; exact H].
+  - pose proof (sink_sync_invD c x s k tag ln H). destruct (sink_sync c x s k tag ln). assumption.
 Qed.
 
 Lemma run_inv c : forall ts s, Inv s -> Inv (fst (run c s ts)).
